@@ -1,5 +1,7 @@
 # run parameters and manifest texts of the C19 check (read by ../props.py)
 PROP = {'engine': 'sup',
+ 'parts': [{'engine': 'sup', 'test': 'TestC19', 'quick': {'checks': 300, 'shards': 8, 'timeout': 600}, 'thorough': {'checks': 5000, 'shards': 12, 'timeout': 3400}},
+           {'engine': 'sup', 'test': 'TestC19Busy', 'quick': {'checks': 48, 'shards': 12, 'timeout': 600}, 'thorough': {'checks': 1200, 'shards': 14, 'timeout': 2400}}],
  'test': 'TestC19',
  'level': 'exploration',
  'quick': {'checks': 300, 'shards': 8, 'timeout': 600},
@@ -32,7 +34,8 @@ PROP = {'engine': 'sup',
                'LocalSupervisor, judged against ground truth from the script text, marker files and /proc. Exploration only.',
  'level_note': 'children of a killed group are given 2 s to disappear after Kill returned (the leader is checked at the moment of return); orphans '
                'that a self-exited leader left in its group are only recorded as an observation (label obs:*; VERIF_C19_STRICT_ORPHANS=1 turns it '
-               'into a violation); uninterruptible processes, stdout/stderr pipes held open by grandchildren (writers are nil) and the -race build '
+               'into a violation); uninterruptible processes and the -race build '
                '(Exec writes freezeThawCycleStart without a lock) are not covered',
  'technique': 'property-based testing (rapid) over real OS processes: script grammar x operation orders x concurrent batches, oracle from script '
               'text, /proc and marker files'}
+PROP['rule'] += " Part 2 (TestC19Busy): one process whose stdout pipe is inherited by a grandchild that left the process group (setsid sleep 0.7-1.5 s) - the leader dies of SIGKILL at once, cmd.Wait returns only when the grandchild ends - is killed with a deadline of 0.6-1.8 s; 5-300 ms later 1-4 operations run concurrently on 1-3 healthy processes (trap 'exit 7' TERM): Terminate (must return within 300 ms without error and its target must report within 2 s), Terminate of an unknown name (error within 300 ms), Kill of an unknown name (error), Kill of a healthy process with 0.5-2 s to go (must return nil, target dead), Exec of `exit 3` (event exit 3). Kill of the stuck process: an error never before its deadline, nil only with the leader dead; afterwards exactly one event signal 9 for it, and for every healthy process at most one event whose value fits what was issued. Host stalls (lag monitor) make the case inconclusive. Non-trivial: an operation falls into the window in which the Kill is waiting."
